@@ -29,7 +29,7 @@ Respell(t, v) == [i \in 1..Len(t) |-> Spell(t[i], v)]
 
 TextsFrom(c) == UNION {{<<c>> \o r : r \in [1..n -> Alphabet]} : n \in 0..(MaxLen - 1)}
 \* longer texts: characters that make structure are drawn more often
-Weighted == <<97, 97, 97, 32, 32, 10, 34, 34, 39, 92, 123, 123, 125, 125, 59, 59, 43, 47, 47, 42, 233, 13, 1114367>>
+Weighted == <<97, 97, 97, 32, 32, 10, 34, 34, 39, 92, 123, 123, 125, 125, 59, 59, 43, 47, 47, 47, 42, 42, 233, 13, 1114367>>
 RandTexts(u_) == [k \in 1..NRand |-> [i \in 1..RandomElement(1..RandLen) |-> Weighted[RandomElement(1..Len(Weighted))]]]
 
 \* where the text ends, in terms of the lexer: the state function that meets the end of the text
